@@ -36,6 +36,8 @@ def check(ctx):
     selector_rules(ctx, 'C11')
     # the final-construct guard on registration is part of the immutability argument
     selector_rules_c10_part(ctx)
+    # ---- C11.shared-log: the logger the selector shares between all client threads carries no changeable state --------------
+    _shared_log_rule(ctx)
     # ---- C11.deliver-under-lock (generator template) --------------------------------------------------------------------
     w = build_wiring(ctx)
     links, _p = all_links(w)
@@ -90,3 +92,49 @@ def selector_rules_c10_part(ctx):
                     'the only writer of m_clients refuses to run once final-constructed: the map is immutable while the '
                     'operational methods read it' if ok else
                     'Index() can modify m_clients after FinalConstruct() while other threads read it')
+
+
+
+def _shared_log_rule(ctx):
+    """The selector keeps one logger (a member of type ILogWithContext) that Select / Deselect / Index use from every client
+    thread *before* they take the selection lock.  That is free of data races only if a call on it changes nothing in it: on
+    clang's AST of the support headers every data member of ILogWithContext is const-qualified and none is `mutable` (a
+    non-const member - a line buffer, a counter - written from the logging lambdas would be written concurrently)."""
+    from ..embedded_cxx import extract_headers, Scratch, clang_ast
+    from ..report import AnalysisError
+    run = ctx.run
+    mod = 'dznpy.support_files.ilog'
+    try:
+        hs = extract_headers(ctx)
+        tu = ''.join(f'#include "{v["filename"]}"\n' for v in hs.values()) + '#include <mock_port.hh>\n'
+        with Scratch() as sc:
+            for v in hs.values():
+                sc.write(v['filename'], v['contents'])
+            objs = clang_ast(sc, 'log.cc', tu, 'ILogWithContext')
+    except AnalysisError as exc:
+        run.error('C11.shared-log', mod, 'body_hh', str(exc), str(exc))
+        return
+
+    def records(o, out):
+        if isinstance(o, dict):
+            if o.get('kind') == 'CXXRecordDecl' and o.get('name') == 'ILogWithContext' and o.get('completeDefinition'):
+                out.append(o)
+            for v in o.get('inner', []) or []:
+                records(v, out)
+        return out
+    recs = [r for o in objs for r in records(o, [])]
+    if not recs:
+        run.error('C11.shared-log', mod, 'ILogWithContext', 'struct', 'struct ILogWithContext not found in the instantiated support headers')
+        return
+    fields = [f for f in recs[0].get('inner', []) if f.get('kind') == 'FieldDecl']
+    if not fields:
+        run.error('C11.shared-log', mod, 'ILogWithContext', 'fields', 'ILogWithContext has no data members: not the shape this rule knows')
+        return
+    for f in fields:
+        qt = f.get('type', {}).get('qualType', '')
+        ok = qt.startswith('const ') and not f.get('mutable')
+        run.add('C11.shared-log', mod, 'ILogWithContext', f"member {f.get('name')}: {qt}", ok,
+                f"`{f.get('name')}` is const: logging through the shared logger changes nothing in it" if ok else
+                f"`{f.get('name')}` ({qt}{', mutable' if f.get('mutable') else ''}) can be written by a call on the logger: the selector's "
+                f"one logger is used by all client threads outside the selection lock - concurrent Select / Deselect write it at the "
+                f"same time (data race)")
